@@ -337,7 +337,7 @@ def diag_rule(ctx, p, K):
         b = {k: norm_text(v) for k, v in wire.kw(c, f).items()}
         tests = wire.path_conds(g, c)
         lst = b.get("no_regularization_index_list")
-        nonempty = lst is not None and (wire.cond_holds(tests, f"len({lst}) > 0") or wire.cond_holds(tests, f"len({lst}) != 0"))
+        nonempty = lst is not None and (wire.cond_holds(tests, f"len({lst}) > 0") or wire.cond_holds(tests, f"len({lst}) != 0") or wire.cond_holds(tests, f"len({lst})") or wire.cond_holds(tests, lst))   # (a list is truthy iff it is non-empty)
         val_ok = b.get("value", "").endswith("no_regularization_add_to_curvature_diag_value")
         lst_ok = lst in ("self.no_regularization_index_list", "no_regularization_index_list")
         ctx.ob(rule, f"{g.key}:diag-call", nonempty and val_ok and lst_ok, where=g, node=c, construct=f"under {tests}; args {b}",
